@@ -14,6 +14,6 @@ cp -r /verif/harness $h; sed -i "s#=> /repo#=> $wt#" $h/go.mod; cp $wt/go.sum $h
 for st in "$@"; do for sd in $(seq 1 $seeds); do
   VERIF_STREAM=$st VERIF_SEED=$sd VERIF_SCALE=$scale VERIF_TRACE=/dev/null VERIF_REPORT=$h/r.json VERIF_WORK=$h timeout 600 $h/h.test -test.run '^TestStream$' >/dev/null 2>&1
   echo "== $st seed=$sd: $(jq -r '[.cases, (.failures|length)]|@tsv' $h/r.json 2>/dev/null)"
-  jq -r '.failures[:3][] | "   \(.property): \(.what[:260])"' $h/r.json 2>/dev/null
+  jq -r ".failures[] | select(.property==\"${MUTPROP:-}\" or \"${MUTPROP:-}\"==\"\") | \"   \\(.property): \\(.what[:260])\"" $h/r.json 2>/dev/null | head -${MUTN:-3}
 done; done
 git -C /repo worktree remove --force $wt; rm -rf $h
